@@ -5,6 +5,11 @@ import json, subprocess
 props = [json.loads(l) for l in open('/verif/properties.jsonl')]
 
 CLAIMED = {
+ "C01": dict(
+   technique="bounded exhaustive enumeration (count/unrank by node count) of all typed core programs, each executed on the real interpreter and on a reference evaluator",
+   text="Every program of a typed core grammar (applications with fixed/rest parameters, lambda, top-level definitions in both spellings, internal definitions with forward references, if with boolean and non-boolean tests, quote, apply with and without spread arguments, higher-order and closure-making procedures, a tick probe at every position) with at most N nodes, under two naming disciplines, is evaluated form by form on the real interpreter; the value and the tick trace of every form must equal the reference evaluator's under one operand-order policy. The simplest programs are additionally re-run from the initial state of a fresh interpreter.",
+   note="trusted: refsem (definitional evaluator written from R7RS, self-tested on the report's examples); programs beyond the node bound are not explored",
+   design="7/C01"),
  "C09": dict(
    technique="bounded exhaustive sweep of the real evaluator over operand tuples (G, G^2, G^3) against an independent reference numeric tower",
    text="Every unary operation on a grid G of boundary numbers (literals and computed values of every internal representation), every binary operation on G^2 and every 3-operand fold on G^3 is executed on the real interpreter and compared with an i128-rational / IEEE-f32 reference: no tuple of the grid violates exactness, division-by-zero or contagion. Small-scope assurance: exhaustive inside the grid, nothing outside it.",
